@@ -572,7 +572,9 @@ Definition admits (f : cfg) (m : method_t) (typed : bool) (x : caller) (o : obs)
            | _ =>
                if negb (effective_guard f m x) then
                  negb (o_ok o) && unchanged o &&
-                 (if mem_str (g_kind (m_guard m)) ["perm"; "callerIs"; "callerAdmin"] then (o_err o =? E_NO_PERMISSION)%N else true)
+                 (* the error class is determined only when nothing can fail before the guard *)
+                 (if mem_str (g_kind (m_guard m)) ["perm"; "callerIs"] && (match g_pre (m_guard m) with [] => true | _ => false end)
+                  then (o_err o =? E_NO_PERMISSION)%N || (o_err o =? E_PANIC)%N (* evaluating the guard's arguments may panic *) else true)
                else negb (o_crash o)
            end
        end.
